@@ -183,6 +183,16 @@ def run(ctx, vlib):
                     failing.append(rec)
             elif len(diffs) < 20:
                 diffs.append(rec)
+    # shrink what failed (bounded effort), keep the original line too
+    for rec in failing[:5]:
+        if rec["case"].startswith("bsr "):
+            k = int(rec["case"].split(" ")[1])
+            small = S.shrink_bsr(vlib, impls.get(k, impls[256]), model, rec["case"])
+            if small != rec["case"]:
+                rec["original_case"] = rec["case"]
+                rec["case"] = small
+                rec["implementation"] = vlib.run_driver(impls.get(k, impls[256]), [small], jobs=1)[0]
+                rec["model"] = vlib.run_driver(model, [small], jobs=1)[0]
     samples = [dict(case=cases[i][:300], implementation=oi[i][:300], model=om[i][:300]) for i in (0, len(cases) // 2, len(cases) - 1)]
     return dict(evaluations=len(cases) + len(jl), distinct_nontrivial=nontriv, samples=samples, classes=classes,
                 failing=failing, diffs=diffs, known_lines=known,
